@@ -24,6 +24,14 @@
    twice, the first result is mutated (add / remove / change / clear) and the text parsed again, other texts are parsed
    and mutated in between, the value is dumped twice and mutated before a further dump; every such parse call is a
    "hist" line and must still return the value of its text (clauses HistRaised / HistIndependence).
+6. Value histories: the value handed to the serialiser is built through a history of its public mutators (HeaderSet:
+   add / remove / discard / update / clear / item assignment and deletion, modelled in HeaderCodec2.tla HSApply and
+   checked by TLC over every history: the result is a set and parses back to itself); v is what the value's own public
+   reads say (list, len, membership) and dump -> parse must return it, dump(parse(dump(v))) = dump(v).  Datetimes of every
+   tzinfo kind (naive, timezone.utc, a fresh zero timezone, fixed offsets, zoneinfo UTC / London / Kolkata, hand-written
+   tzinfo subclasses; with and without microseconds) go through http_date, IfRange, dump_cookie expires and the Response
+   date setters: the parsed instant equals the input at one-second resolution.  Clauses VHRaised / VHRoundTrip /
+   VHRedumpRaised / VHNormalForm / VHDumpStable.
 """
 from __future__ import annotations
 
@@ -112,6 +120,37 @@ def judge_histories(ctx: Ctx, hcases, kind="c06hist"):
     return lines
 
 
+def _run_vh_chunk(chunk):
+    return hc.run_vhs(chunk)
+
+
+def judge_value_histories(ctx: Ctx, vcases, kind="c06vh"):
+    """Values built through a history of their public mutators (and datetimes of every tzinfo kind) before they are dumped."""
+    chunks = [vcases[i:i + 200] for i in range(0, len(vcases), 200)]
+    recs = pmap(_run_vh_chunk, chunks, workers=min(ctx.workers, 8), chunksize=1) if len(chunks) > 4 else [_run_vh_chunk(c) for c in chunks]
+    lines, t = [], 0
+    for chunk in recs:
+        for vl in chunk:
+            for i, ln in enumerate(vl):
+                ln["t"], ln["i"] = t, i
+                lines.append(ln)
+                if ln["err"] == "":
+                    ctx.nontrivial.add(("vh", ln["codec"], ln["hk"], tuple(ln["dumped"])))
+            t += 1
+    ctx.count(len(lines))
+    for ln in lines[:1] + lines[-1:]:
+        ctx.sample({"op": "vh", "codec": ln["codec"], "history": ln["hk"], "dumped": _text(ln["dumped"]), "parsed": json.dumps(ln["parsed"])[:200]}, limit=14)
+    at = {(ln["t"], ln["i"]): ln for ln in lines}
+    for r in ctx.judge(AREA, "HeaderCodecTrace", lines, batch=2500):
+        ln, case = at[(r["t"], r["i"])], vcases[r["t"]]
+        if r["clause"] == "OutOfDomain":
+            raise MachineryError(f"value-history driver produced a value outside the judged domain: {json.dumps(case)[:500]}")
+        obs = {"value": ln["v"], "dumped": _text(ln["dumped"]), "parsed": ln["parsed"], "redumped": _text(ln["redumped"]), "reparsed": ln["reparsed"],
+               "err": ln["err"], "err2": ln["err2"]}
+        ctx.violation(f"{r['clause']}/{ln['hk']}:{ln['codec']}", r["clause"], {"case": case, "observed": obs}, kind=kind)
+    return lines
+
+
 def run(ctx: Ctx):
     q = ctx.quick
     ctx.rule = ("case = one value (rt) or one header text (nf) of one of 16 codecs (quote, quote/no-token, list, set, dict, options, etags, "
@@ -159,7 +198,7 @@ def run(ctx: Ctx):
     ctx.exhaustive = True
     variants = (("MCHeaderCodec", "MCV_range_anyorder"), ("MCHeaderCodec", "MCV_quote_order"), ("MCHeaderCodec", "MCV_token_choice"),
                 ("MCHeaderCodec", "MCV_utc_offset"), ("MCHeaderCodec2", "MC2V_b64pad"), ("MCHeaderCodec2", "MC2V_usercolon"),
-                ("MCHeaderCodec2", "MC2V_digesttoken"), ("MCHeaderCodec2", "MC2V_intempty"))
+                ("MCHeaderCodec2", "MC2V_digesttoken"), ("MCHeaderCodec2", "MC2V_intempty"), ("MCHeaderCodec2", "MC2V_setitem"))
     with cf.ThreadPoolExecutor(max_workers=4) as ex:
         res = list(ex.map(lambda mc: tlc.run_tlc(AREA, mc[0], mc[1], workers=1, tmp=ctx.tmp, allow_violation=True, timeout=600), variants))
     broken = {mc[1]: r.invariant_violated for mc, r in zip(variants, res)}
@@ -206,10 +245,25 @@ def run(ctx: Ctx):
             hcases.append(hc.history_case(rng, codec))
     ctx.notes["histories"] = len(hcases)
     judge_histories(ctx, hcases)
+    # 6. value histories: the value is built through its public mutators before it is dumped (HeaderSet incl. item assignment
+    #    naming the current member / a case variant / another member; list, dict, options dict, ETags inputs, cache-control,
+    #    CSP, Content-Range, Range, both auth classes, Accept); datetimes of every tzinfo kind through every date formatter
+    vcases = []
+    for codec in hc.VH_CODECS:
+        for _ in range((150 if codec == "setv" else 30) if q else 2000):
+            vcases.append(hc.value_history_case(rng, codec))
+    vcases += hc.date_cases(rng, 100 if q else 5000)
+    ctx.notes["value_histories"] = len(vcases)
+    judge_value_histories(ctx, vcases)
 
 
 def replay(ctx: Ctx, data):
     case = data["case"]["case"]
+    if case.get("op") in ("vh", "vhdate"):
+        ctx.sample({"replayed": json.dumps(case)[:300]})
+        judge_value_histories(ctx, [case], kind=data.get("kind", "c06vh"))
+        ctx.nontrivial.update({("replay", 0), ("replay", 1)})
+        return
     if case.get("op") == "hist":
         ctx.sample({"replayed": json.dumps(case)[:300]})
         judge_histories(ctx, [case], kind=data.get("kind", "c06hist"))
